@@ -300,6 +300,10 @@ def gen_run(rng):
         up['restarts.use_restarts'] = False
     elif restarts == 'soft':
         up['restarts.use_restarts'] = True; up['restarts.use_soft_restarts'] = True
+        if rng.random() < 0.5:
+            # points added after a soft restart are evaluated too
+            up['restarts.increase_npt'] = True
+            up['restarts.max_npt'] = n + 1 + int(rng.integers(1, 3))
     elif restarts == 'hard':
         up['restarts.use_restarts'] = True; up['restarts.use_soft_restarts'] = False
     dt = rng.choice([0, 1e-4, 1e-6, 1e-12], p=[.5, .15, .2, .15])
